@@ -430,6 +430,7 @@ def run_history(case, ctx):
 	sl = SignatureList(list(model), spec)
 	nmut = 0
 	classes = set()
+	forks = []
 
 	def compare(step):
 		if len(sl) != len(model):
@@ -439,6 +440,11 @@ def run_history(case, ctx):
 				raise Violation('history_content', f'after step {step}: element {i} is {sl[i]!r}, model has {m!r}', case)
 		if not all(x is y for x, y in zip(list(sl), model)):
 			raise Violation('history_iter', f'after step {step}: iteration disagrees with model', case)
+		# collections obtained earlier by slicing are separate lists: a mutation of one never shows in another
+		for fi, (o, m) in enumerate(forks):
+			if len(o) != len(m) or not all(x is y for x, y in zip(list(o), m)):
+				raise Violation('history_aliasing', f'after step {step}: sub-collection {fi} obtained by slicing earlier now has {len(o)} elements / other '
+				                f'content than its own model ({len(m)} elements): it shares state with the collection it was sliced from', case)
 
 	for step, op in enumerate(case['ops']):
 		t = op['t']
@@ -530,6 +536,22 @@ def run_history(case, ctx):
 			elif t == 'clear':
 				model.clear()
 				sl.clear(); got_err = None
+			elif t == 'fork':
+				sl_ = slice(op['a'], op['b'], op['c'])
+				try:
+					o = sl[sl_]
+				except Exception as e:
+					raise Violation('history_unexpected_error', f'step {step}: sl[{sl_}] raised {type(e).__name__}: {e}', case)
+				m = list(model[sl_])
+				if op['then'] == 'append' and hasattr(o, 'append'):
+					v = fresh()
+					o.append(v); m.append(v)
+				elif op['then'] == 'clear' and hasattr(o, 'clear'):
+					o.clear(); m.clear()
+				if len(forks) < 4:
+					forks.append((o, m))
+				got_err = None
+				classes.add('history_fork' + ('_whole' if len(m) - (op['then'] == 'append') == len(model) and op['then'] != 'clear' else ''))
 			elif t == 'read':
 				expr = fit_expr(op['expr'], len(model))
 				check_expr(np, ASA, sl, model, spec, dtype, expr, case, 'SignatureList(history)')
@@ -546,7 +568,7 @@ def run_history(case, ctx):
 			classes.add('history_error_step')
 		elif got_err is not None:
 			raise Violation('history_unexpected_error', f'step {step} {op}: raised {type(got_err).__name__}: {got_err}', case)
-		if t != 'read':
+		if t not in ('read', 'fork'):
 			nmut += 1
 			classes.add('mut:' + t)
 		compare(step)
@@ -624,6 +646,8 @@ def gen_case(draw, tier):
 		st.builds(lambda e: {'t': 'read', 'expr': e}, expr_strategy(8).filter(lambda e: e['t'] != 'bad')),
 		st.just({'t': 'append'}),
 		st.builds(lambda i: {'t': 'insert', 'i': i}, r),
+		st.builds(lambda a, b, c, th: {'t': 'fork', 'a': a, 'b': b, 'c': c, 'then': th}, st.one_of(st.none(), st.none(), st.just(0), r),
+		          st.one_of(st.none(), st.none(), r), st.sampled_from([None, None, 1, 1, -1, 2]), st.sampled_from(['append', 'none', 'clear'])),
 	)
 	return {'kind': 'history', 'init_lens': draw(st.lists(st.integers(0, 3), max_size=6)),
 	        'ops': draw(st.lists(op, min_size=1, max_size=50))}
